@@ -601,6 +601,14 @@ impl LruShim {
     pub fn get(&self, k: &String) -> (r: Option<&JMap>)
         ensures match r { Some(v) => self.cview().contains_key(k@) && *v == self.cview()[k@], None => true },
     { unimplemented!() }
+    #[verifier::external_body]
+    pub fn contains(&self, k: &String) -> (r: bool)
+        ensures r == self.cview().contains_key(k@),
+    { unimplemented!() }
+    #[verifier::external_body]
+    pub fn peek(&self, k: &String) -> (r: Option<&JMap>)
+        ensures match r { Some(v) => self.cview().contains_key(k@) && *v == self.cview()[k@], None => !self.cview().contains_key(k@) },
+    { unimplemented!() }
     /// after a put the cache holds a SUBSET of (old content + the new entry): eviction is unconstrained
     #[verifier::external_body]
     pub fn put(&mut self, k: String, v: JMap)
